@@ -883,6 +883,16 @@ def rule_r16(ctx) -> RuleResult:
                   "placeholder characters of an earlier page end up in the parse tree", min_instances=1)
 
 
+def rule_r17(ctx) -> RuleResult:
+    """parse() serialises subtrees while it parses (check_for_attributes -> node_to_wikitext): an exception in the serialiser
+    is an exception out of parse().  Shared with C19.R11."""
+    from ..core.report import shared
+    from . import c19
+
+    return shared(c19.rule_r11(ctx), "C01.R17", "the serialiser the parser calls does not raise on fields that are None (shared with C19.R11)",
+                  "parse() raises for a document that puts such a node where the table parser looks for attributes", min_instances=1)
+
+
 def run(ctx) -> list:
     return [rule_r1(ctx), rule_r2(ctx), rule_r3(ctx), rule_r4(ctx), rule_r5(ctx), rule_r6(ctx), rule_r7(ctx), rule_r8(ctx),
-            rule_r9(ctx), rule_r10(ctx), rule_r11(ctx), rule_r12(ctx), rule_r13(ctx), rule_r14(ctx), rule_r15(ctx), rule_r16(ctx)]
+            rule_r9(ctx), rule_r10(ctx), rule_r11(ctx), rule_r12(ctx), rule_r13(ctx), rule_r14(ctx), rule_r15(ctx), rule_r16(ctx), rule_r17(ctx)]
